@@ -298,3 +298,18 @@ Fixpoint typed_members (fs : list (text * ty)) (inst : list (text * val)) : bool
   end.
 Definition typed_obj (fs : list (text * ty)) (inst : list (text * val)) : bool :=
   names_eqb (map fst inst) (map fst fs) && typed_members fs inst.
+
+(** day number of a proleptic Gregorian date (inverse of Model.civil_of_days) *)
+Definition days_of_civil (y m d : Z) : Z :=
+  let y' := if m <=? 2 then y - 1 else y in
+  let era := y' / 400 in
+  let yoe := y' - era * 400 in
+  let doy := (153 * (if m >? 2 then m - 3 else m + 9) + 2) / 5 + d - 1 in
+  era * 146097 + (yoe * 365 + yoe / 4 - yoe / 100 + doy) - 719468.
+(** the calendar fields of the IMF-fixdate written for an instant *)
+Definition imf_fields (epoch : Z) : Z * Z * Z * Z * Z * Z :=
+  let '(y, m, d) := civil_of_days (epoch / 86400) in
+  let sod := epoch mod 86400 in
+  (y, m, d, sod / 3600, sod mod 3600 / 60, sod mod 60).
+Definition instant_of_fields (f : Z * Z * Z * Z * Z * Z) : Z :=
+  let '(y, m, d, hh, mi, ss) := f in days_of_civil y m d * 86400 + hh * 3600 + mi * 60 + ss.
